@@ -9,6 +9,7 @@ something to say, so entries may repeat, with equal content (`extF`: equally nam
 metadata; `replF`: ... the same emitted information).
 -/
 import IrVerif.Lemmas.ScopeExtFuncDefs
+import IrVerif.Lemmas.ScopeExtFuncDevDefs
 namespace IrVerif.Scope
 
 /-! ### the function inputs of the extended deserializer -/
@@ -134,7 +135,8 @@ theorem rtE_func (V : Nat → ValueS) (x : Ext) (td : TData) (ver : Option Int) 
         B.map (·.1) = (replF V g).new ∧ TreeRelG V (A ++ B) g g' ∧ Fresh s' ∧ Prim s.nv s s' ∧
         InfoOK2 V s' (A ++ B) (emitF V g) ∧ ConstOK2 V td s' (A ++ B) (allInitsG g) ∧
         ExtFresh s' x' ∧ XKeep s.nv xs x' ∧ (∀ e ∈ B, s.nv ≤ e.2) ∧
-        MetaOKk x x' (A ++ B) (emitF V g) ∧ QuantOKk x x' (A ++ B) (emitQF V g)
+        MetaOKk x x' (A ++ B) (emitF V g) ∧ QuantOKk x x' (A ++ B) (emitQF V g) ∧
+        s.nn ≤ s'.nn ∧ (∀ k, k < s.nn → x'.devs k = xs.devs k) ∧ DevTrF V x' s'.nn (A ++ B) g fp g'
   | id, .mk gid ins inits nodes outs, s, xs, A, fp, ws, hser, hok, hnd, hext, hnew, hrs, hfr, hxf => by
     obtain ⟨vis1, nps, qN, vis2, hi, hn, houts_n, rfl⟩ := xserFunction_inv hser
     simp only [replF] at hok hnd hnew ⊢
@@ -291,8 +293,7 @@ theorem rtE_func (V : Nat → ValueS) (x : Ext) (td : TData) (ver : Option Int) 
         · exact hdisjN v (by simp [h]) v hv rfl)
       t3 (fun _ hT => by simp at hT) r3 f3 ns3.fresh hTQ3 hTM3
     rw [hrn] at h4
-    obtain ⟨s4, x4, nts, B4, e4, r4, l4, k4, t4, tr4, f4, p4, io4, co4, xf4, xk4, ge4, tq4, tm4, mo4, htail⟩ := h4
-    have qo4 := htail.1
+    obtain ⟨s4, x4, nts, B4, e4, r4, l4, k4, t4, tr4, f4, p4, io4, co4, xf4, xk4, ge4, tq4, tm4, mo4, qo4, _, _, _, dt4⟩ := h4
     simp only [List.map_nil] at e4
     generalize hA4 : A3 ++ B4 = A4 at *
     -- phase 5: the outputs
@@ -302,7 +303,7 @@ theorem rtE_func (V : Nat → ValueS) (x : Ext) (td : TData) (ver : Option Int) 
         .ok ((mkGraph s4 (List.range' s.nv ins.length) (outs.map (sig A4)) nts []).1, x4,
           (mkGraph s4 (List.range' s.nv ins.length) (outs.map (sig A4)) nts []).2) := by
       simp only [deserFunctionE, eI1, hx1, eI2, htbl1, h3E, e4, e5]
-    obtain ⟨c1', _, _⟩ := mkGraph_fst_counters s4 (List.range' s.nv ins.length) (outs.map (sig A4)) nts []
+    obtain ⟨c1', c2', _⟩ := mkGraph_fst_counters s4 (List.range' s.nv ins.length) (outs.map (sig A4)) nts []
     have hcell := mkGraph_cell s4 (List.range' s.nv ins.length) (outs.map (sig A4)) nts []
     have hsnd6 := mkGraph_snd s4 (List.range' s.nv ins.length) (outs.map (sig A4)) nts []
     have p6 := mkGraph_prim s4.nv s4 (List.range' s.nv ins.length) (outs.map (sig A4)) nts []
@@ -319,9 +320,9 @@ theorem rtE_func (V : Nat → ValueS) (x : Ext) (td : TData) (ver : Option Int) 
         obtain ⟨o, ho, rfl⟩ := hv
         exact r4.sig_lt (houtK o ho)
       · intro v hv; simp at hv
-    generalize hmg : mkGraph s4 (List.range' s.nv ins.length) (outs.map (sig A4)) nts [] = mg at hrunE c1' hcell hsnd6 p6 f6
+    generalize hmg : mkGraph s4 (List.range' s.nv ins.length) (outs.map (sig A4)) nts [] = mg at hrunE c1' c2' hcell hsnd6 p6 f6
     obtain ⟨s6, g6⟩ := mg
-    simp only at c1' hcell hsnd6 p6 f6 hrunE
+    simp only at c1' c2' hcell hsnd6 p6 f6 hrunE
     have hAfull : A ++ (ins.zip (List.range' s.nv ins.length) ++ B3 ++ B4) = A4 := by
       rw [← hA4, ← hA3, ← hA1]; simp [List.append_assoc]
     have r6 : RS V s6 A4 := r4.same_nv c1' (fun w => by rw [hcell])
@@ -465,7 +466,8 @@ theorem rtE_func (V : Nat → ValueS) (x : Ext) (td : TData) (ver : Option Int) 
       (nsI.keep.trans (ns3.keep.weaken le1)).trans (xk4.weaken le3)
     refine ⟨s6, x4, g6, ins.zip (List.range' s.nv ins.length) ++ B3 ++ B4, hrunE, trivial, by rw [hAfull]; exact r6, ?_, ?_, ?_,
       f6, ((p1.trans (p3.weaken (by omega))).trans (p4.weaken (by omega))).trans (p6.weaken (by omega)), ?_, ?_, ?_, xk6,
-      hgeB, ?_, ?_⟩
+      hgeB, ?_, ?_, (deserFunctionE_devX _ s xs s6 x4 g6 hfr hrunE).2.2, (deserFunctionE_devX _ s xs s6 x4 g6 hfr hrunE).2.1,
+      ?_⟩
     · rw [c1']; omega
     · simp only [List.map_append, keys_zip _ _ (show ins.length = (List.range' s.nv ins.length).length by simp), k3, k4]
     · rw [hAfull, hsnd6]
@@ -531,5 +533,10 @@ theorem rtE_func (V : Nat → ValueS) (x : Ext) (td : TData) (ver : Option Int) 
       intro v hv
       simp only [emitQF] at hv
       exact qo4 v hv
+    · -- the trace of the device configurations of the body
+      rw [hAfull, hsnd6]
+      simp only [DevTrF]
+      rw [hrd, c2']
+      exact DevTrNs_setGraph V x4 s4.nn A4 [] _ rd.tbl nodes nps nts dt4
 
 end IrVerif.Scope
